@@ -280,7 +280,7 @@ func genBufOps(rt *rapid.T, maxLen int) []bufOp {
 
 func TestBufferedRapid(t *testing.T) {
 	sec := vk.Sec(t.Name())
-	vk.Check(t, 20000, 1000000, func(rt *rapid.T) {
+	vk.Check(t, 20000, 400000, func(rt *rapid.T) {
 		initial := rapid.IntRange(-1, 5).Draw(rt, "initial")
 		bsize := rapid.IntRange(-1, 5).Draw(rt, "bsize")
 		ops := genBufOps(rt, 60)
@@ -301,11 +301,11 @@ func TestBufferedRapid(t *testing.T) {
 // TestBufferedExhaustive enumerates, for every (initial, bsize) in -1..5 x -1..5,
 // EVERY sequence over the alphabet {AppendBack, Front, RemoveFront, Len, Range
 // (full), Range stopping after the first element} of length exactly L (quick 8,
-// thorough 10); each operation's result is checked, so every shorter sequence is
+// thorough 9); each operation's result is checked, so every shorter sequence is
 // checked as a prefix. A case is one maximal sequence.
 func TestBufferedExhaustive(t *testing.T) {
 	sec := vk.Sec(t.Name())
-	L := vk.Pick(8, 10)
+	L := vk.Pick(8, 9)
 	alphabet := []bufOp{{Kind: 'A'}, {Kind: 'R'}, {Kind: 'F'}, {Kind: 'L'}, {Kind: 'G'}, {Kind: 'G', Stop: 1}}
 	type unit struct{ initial, bsize, first, second int }
 	var units []unit
